@@ -11,6 +11,7 @@ import SwimVerif.Proofs.Envelope
 import SwimVerif.Proofs.Routing
 import SwimVerif.Proofs.MultiReader
 import SwimVerif.Proofs.MultiReaderReady
+import SwimVerif.Proofs.MultiReaderPending
 
 set_option linter.unusedSimpArgs false
 namespace SwimVerif.C11
@@ -452,13 +453,21 @@ theorem C11_push_wakes_parked (ops : List MultiReader.Op) (k s x : Nat)
   rw [getD_modify_list, if_pos ⟨rfl, by simpa [setSource] using hblt⟩]
   exact (mem_fInsert _ _ _).mpr (Or.inl rfl)
 
-/-- (open) When `poll_next` answers `Pending`, no ready bit is left anywhere, hence every registered stream is
-parked: needs the termination argument of the bucket walk of `get_next_stream` (it returns `None` only after a
-full cycle). Sampled by the monitor (`pending-though-item-available`, `lost-wakeup-on-push`). -/
-def C11_pending_means_all_parked_open : Prop :=
-  ∀ (ops : List MultiReader.Op), (MultiReader.poll (mreach ops)).2 = .pending →
+/-- **`Pending` means everybody is parked**: when `poll_next` answers `Pending`, no ready bit is left in any bucket
+nor in the local or queue flags (the bucket walk of `get_next_stream` gives up only after a full cycle over empty
+buckets; the loop of `poll_next` consumes a flag per iteration), hence every registered stream is empty, open and
+holds the waker that sets its bit and wakes the task — no lost wake-up. -/
+theorem C11_pending_means_all_parked (ops : List MultiReader.Op)
+    (hp : (MultiReader.poll (mreach ops)).2 = .pending) :
+    NoFlags (MultiReader.poll (mreach ops)).1 ∧
     ∀ k s, (MultiReader.poll (mreach ops)).1.entries[k]? = some (Entry.occ s) →
-      parked (MultiReader.poll (mreach ops)).1 k s
+      parked (MultiReader.poll (mreach ops)).1 k s := by
+  have hinv : WF (mreach ops) ∧ Ready (mreach ops) none := run_inv MultiReader.init ops inv_init.1 inv_init.2
+  generalize mreach ops = st at *
+  unfold MultiReader.poll at *
+  have hn := pollNext_pending (flagCount st + 2) st hinv.1 (by omega) hp
+  have hr := (pollNext_inv (flagCount st + 2) st hinv.1 hinv.2).2
+  exact ⟨hn, fun k s hk => all_parked_of_noFlags _ hr hn k s hk⟩
 
 /-- (open) Fairness: a stream whose bit is set is polled within two rounds over the ready streams. -/
 def C11_fair_within_2n_polls_open : Prop :=
@@ -468,6 +477,7 @@ def C11_fair_within_2n_polls_open : Prop :=
       ∃ x, (s, x) ∈ (MultiReader.run (mreach ops) (List.replicate n .poll)).delivered ∧
            (s, x) ∉ (mreach ops).delivered
 
+example : (MultiReader.poll (mreach [.add, .add, .push 1 5, .poll])).2 = .pending := by decide
 example : parked (mreach [.add, .poll]) 0 0 := by unfold parked; decide
 example : flagged (mreach [.add, .poll, .push 0 7]) 0 0 := by unfold flagged; decide
 example : (MultiReader.step (mreach [.add, .poll]) (.push 0 7)).2.2 = 1 := by decide
